@@ -103,12 +103,35 @@ def close(real, model, rel=REL):
     return abs(F(real) - model) <= rel * max(abs(model), abs(F(real))) + F(1, 10**15)
 
 
+class Batch:
+    """collects driver lines of all streams so that the Lean driver is started once per run"""
+
+    def __init__(self):
+        self.lines, self.parts = [], []
+
+    def add(self, lines, callback):
+        if lines:
+            self.parts.append((len(self.lines), len(lines), callback))
+            self.lines += lines
+
+    def flush(self, ctx):
+        if not self.lines or not ctx.model_ok:
+            return
+        out = ctx.model("Dcc", self.lines)
+        for start, n, cb in self.parts:
+            cb(out[start:start + n])
+        self.lines, self.parts = [], []
+
+
 # ----------------------------------------------------------------------------------------------------------------
 # Reactive: real runner, oracle
 # ----------------------------------------------------------------------------------------------------------------
 def _num(v, unit=1):
     fr = F(v) * unit
     return str(fr.numerator) if fr.denominator == 1 else f"{fr.numerator}/{fr.denominator}"
+
+
+_OUT_CACHE = {}
 
 
 def real_r_update(obj, x):
@@ -118,12 +141,16 @@ def real_r_update(obj, x):
     except Exception as e:   # noqa: BLE001 — mapped to a small enum
         return type(e).__name__, None
     try:
-        st = int(o.state.value)
-        line = f"ok {st} {_num(o.packet_rate_hz, 1000)} {_num(o.t_off_ms)}"
-        stored = int(obj.state.value)
+        key = (o.state.value, o.packet_rate_hz, o.t_off_ms)
+        ent = _OUT_CACHE.get(key)
+        if ent is None:
+            st = int(key[0])
+            ent = (f"ok {st} {_num(key[1], 1000)} {_num(key[2])}", (st, F(key[1]), F(key[2])))
+            _OUT_CACHE[key] = ent
+        stored = obj.state.value
     except Exception as e:   # noqa: BLE001
         return "bad-output:" + type(e).__name__, None
-    return line, (st, F(o.packet_rate_hz), F(o.t_off_ms), stored)
+    return ent[0], ent[1] + (stored,)
 
 
 def new_reactive(t_on, start):
@@ -302,7 +329,7 @@ def random_cbr(ctx, edges):
     return ctx.rng.choice((-1e-9, -0.0001, -1.0, 1.0000000000000002, 1.0001, 2.0, NAN, INF, -INF, -0.0, 5e-324))
 
 
-def reactive_random(ctx, n_seq, use_model=True):
+def reactive_random(ctx, n_seq, batch=None):
     edges = code_edges()
     cases = []
     for _ in range(n_seq):
@@ -325,7 +352,7 @@ def reactive_random(ctx, n_seq, use_model=True):
             ctx.cover("reactive.out." + ln.split()[0])
         ctx.nontrivial(("rseq", case["t_on"], [cell(x) for x in case["cbr"]]))
         ctx.sample("reactive.random", {"t_on": case["t_on"], "cbr": case["cbr"][:12], "real": real_lines[:12]}, 1)
-        if use_model and ctx.model_ok:
+        if batch is not None and ctx.model_ok:
             lines.append(f"r new {case['t_on']}")
             idx.append((ci, "new", None, f"ok {1 if a2 else 0}"))
             for x, rl in zip(case["cbr"], real_lines):
@@ -339,14 +366,15 @@ def reactive_random(ctx, n_seq, use_model=True):
             if sl is not None:
                 lines.append(sl)
                 idx.append((ci, "spec", None, "0" if any(kind in ("adjacency", "row", "convergence", "state") for kind, _, _ in probs) else "1"))
-    if lines:
-        out = ctx.model("Dcc", lines)
+    def finish(out):
         for (ci, what, x, want), got in zip(idx, out):
             if what == "new":
                 continue   # table choice is observed through the following outputs
             if got != want:
                 ctx.mismatch("reactive.random" if what == "upd" else "reactive.spec-vs-oracle",
                              {"t_on": cases[ci]["t_on"], "cbr": cases[ci]["cbr"], "at": x}, want, got)
+    if batch is not None:
+        batch.add(lines, finish)
 
 
 # ----------------------------------------------------------------------------------------------------------------
@@ -480,7 +508,7 @@ def ors(x):
     return "-" if x is None else rs(x)
 
 
-def adaptive_random(ctx, n_seq, use_model=True):
+def adaptive_random(ctx, n_seq, batch=None):
     for _ in range(n_seq):
         params = random_params(ctx)
         case = {"kind": "adaptive", "params": params, "steps": random_steps(ctx, params, ctx.rng.randrange(5, 90))}
@@ -496,7 +524,7 @@ def adaptive_random(ctx, n_seq, use_model=True):
         ctx.nontrivial(("aseq", [rs(v) for v in params], len(recs)))
         ctx.cover("adaptive.params." + ("min<=max" if params[4] <= params[3] else "min>max"))
         ctx.sample("adaptive.random", {"params": params, "steps": case["steps"][:3], "real": [[r[2], list(r[3])] for r in recs[:3]]}, 1)
-        if not (use_model and ctx.model_ok):
+        if batch is None or not ctx.model_ok:
             continue
         head = "a new " + " ".join(rs(v) for v in params)
         lines, idx = [head], [("new", None)]
@@ -507,36 +535,39 @@ def adaptive_random(ctx, n_seq, use_model=True):
             idx += [("set", i), ("sync", i)]
         lines.append(head)
         idx.append(("new", None))
-        alive = True
         for i, (pre, step, line, post, *_r) in enumerate(recs):      # free pass
             if not all(finite(v) for v in step if v is not None):
                 continue
             lines.append("a upd " + " ".join(ors(v) for v in step))
             idx.append(("free", i))
-        out = ctx.model("Dcc", lines)
-        for (what, i), got in zip(idx, out):
-            if what in ("new", "set"):
-                if not got.startswith("ok"):
-                    ctx.mismatch("adaptive.proto", lines[0], "ok", got)
-                continue
-            pre, step, line, post = recs[i][:4]
-            tok = got.split()
-            if what == "free" and not alive:
-                continue
-            if tok[0] != "ok" or line != "ok":
-                if got != line:
-                    ctx.mismatch("adaptive." + what, {"params": params, "steps": case["steps"][:i + 1]}, line, got)
-                continue
-            m_its, m_delta, m_diff = parse_rat(tok[1]), parse_rat(tok[2]), parse_rat(tok[3])
-            if close(post[0], m_its) and close(post[1], m_delta):
-                continue
-            if abs(m_diff) <= REL:        # step-2 decision inside the tolerance band
-                ctx.cover("tolerance_skips")
-                if what == "free":
-                    alive = False
-                continue
-            ctx.mismatch("adaptive." + what, {"params": params, "steps": case["steps"][:i + 1]},
-                         [post[0], post[1]], [float(m_its), float(m_delta)])
+        batch.add(lines, lambda out, a=(params, case, recs, idx): compare_adaptive(ctx, *a, out))
+
+
+def compare_adaptive(ctx, params, case, recs, idx, out):
+    alive = True
+    for (what, i), got in zip(idx, out):
+        if what in ("new", "set"):
+            if not got.startswith("ok"):
+                ctx.mismatch("adaptive.proto", what, "ok", got)
+            continue
+        pre, step, line, post = recs[i][:4]
+        tok = got.split()
+        if what == "free" and not alive:
+            continue
+        if tok[0] != "ok" or line != "ok":
+            if got != line:
+                ctx.mismatch("adaptive." + what, {"params": params, "steps": case["steps"][:i + 1]}, line, got)
+            continue
+        m_its, m_delta, m_diff = parse_rat(tok[1]), parse_rat(tok[2]), parse_rat(tok[3])
+        if close(post[0], m_its) and close(post[1], m_delta):
+            continue
+        if abs(m_diff) <= REL:        # step-2 decision inside the tolerance band
+            ctx.cover("tolerance_skips")
+            if what == "free":
+                alive = False
+            continue
+        ctx.mismatch("adaptive." + what, {"params": params, "steps": case["steps"][:i + 1]},
+                     [post[0], post[1]], [float(m_its), float(m_delta)])
 
 
 # ----------------------------------------------------------------------------------------------------------------
@@ -711,7 +742,7 @@ def gate_lines(recs, synced):
     return lines, idx
 
 
-def gate_random(ctx, n_seq, use_model=True):
+def gate_random(ctx, n_seq, batch=None):
     for _ in range(n_seq):
         d0 = ctx.rng.choice((ctx.rng.uniform(1e-4, 0.05), ctx.rng.uniform(1e-4, 0.05), 0.0006, 0.03, 0.01, 1e-6, 1.0, -0.01))
         if ctx.rng.random() < 0.02:
@@ -725,13 +756,12 @@ def gate_random(ctx, n_seq, use_model=True):
             ctx.cover(f"gate.{op[0]}.{line}")
         ctx.nontrivial(("gseq", rs(d0), [(o[0], rs(o[1])) for o in case["ops"][:6]]))
         ctx.sample("gate.random", {"delta": d0, "ops": case["ops"][:4], "real": [r[2] for r in recs[:4]]}, 1)
-        if not (use_model and ctx.model_ok):
+        if batch is None or not ctx.model_ok:
             continue
         l1, i1 = gate_lines(recs, True)
         l2, i2 = gate_lines(recs, False)
-        out = ctx.model("Dcc", l1 + [f"g new {rs(d0)}"] + l2)
-        compare_gate(ctx, case, recs, i1, out[:len(l1)], "gate.sync")
-        compare_gate(ctx, case, recs, i2, out[len(l1) + 1:], "gate.free")
+        batch.add(l1, lambda out, a=(case, recs, i1): compare_gate(ctx, *a, out, "gate.sync"))
+        batch.add([f"g new {rs(d0)}"] + l2, lambda out, a=(case, recs, i2): compare_gate(ctx, *a, out[1:], "gate.free"))
 
 
 def compare_gate(ctx, case, recs, idx, out, stream):
@@ -838,9 +868,11 @@ def run(ctx):
     reactive_tree(ctx, depth)
     ctx.exhaustive = True
     ctx.note(f"reactive tree exhaustive to depth {depth} over {len(representatives())} representatives x 5 start states x 2 tables")
-    reactive_random(ctx, ctx.scale(150, 3000))
-    adaptive_random(ctx, ctx.scale(120, 2500))
-    gate_random(ctx, ctx.scale(120, 2500))
+    batch = Batch()
+    reactive_random(ctx, ctx.scale(150, 3000), batch)
+    adaptive_random(ctx, ctx.scale(120, 2500), batch)
+    gate_random(ctx, ctx.scale(120, 2500), batch)
+    batch.flush(ctx)
 
 
 def search(ctx):
@@ -850,9 +882,9 @@ def search(ctx):
     try:
         check_constants(ctx)
         reactive_tree(ctx, ctx.scale(4, 5))
-        reactive_random(ctx, ctx.scale(450, 9000), use_model=False)
-        adaptive_random(ctx, ctx.scale(360, 7500), use_model=False)
-        gate_random(ctx, ctx.scale(360, 7500), use_model=False)
+        reactive_random(ctx, ctx.scale(450, 9000))
+        adaptive_random(ctx, ctx.scale(360, 7500))
+        gate_random(ctx, ctx.scale(360, 7500))
     finally:
         ctx.model_ok = ok
 
